@@ -860,6 +860,9 @@ pub enum SNode {
     RefB(RefHolder<SB>),
     PBoxedV(Box<Poisonable<BoxedLockCollection<SV>>>),
     PRetryB(Box<Poisonable<RetryingLockCollection<SB>>>),
+    /// plain arrays as children (their guards are plain arrays of member guards)
+    BoxedA2(BoxedLockCollection<[&'static Leaf; 2]>),
+    RetryA3(Box<RetryingLockCollection<[&'static Leaf; 3]>>),
 }
 
 fn slice_member() -> ! {
